@@ -552,7 +552,7 @@ class StdVectorBase : private Alloc {
 
   template <class OSizeType, class OAlloc>
   bool canSwapDynStorage(StdVectorBase<T, OAlloc, OSizeType> &) const noexcept {
-    return std::is_same<OAlloc, Alloc>::value;
+    return std::is_same<OAlloc, Alloc>::value && std::is_same<OSizeType, SizeType>::value;
   }
 
   template <class VectorType>
@@ -567,6 +567,10 @@ class StdVectorBase : private Alloc {
   SizeType &msize() noexcept { return _size; }
   SizeType &mcapacity() noexcept { return _capa; }
   void setSize(SizeType s) noexcept { _size = s; }
+  void setDynSizeAndCapacity(SizeType s, SizeType c) noexcept {
+    _size = s;
+    _capa = c;
+  }
 
   iterator dynStorage() const noexcept { return _storage; }
 
@@ -718,7 +722,7 @@ class SmallVectorBase : private Alloc {
 
   template <class OAlloc, class OSizeType>
   bool canSwapDynStorage(StdVectorBase<T, OAlloc, OSizeType> &) const noexcept {
-    return std::is_same<OAlloc, Alloc>::value && !isSmall();
+    return std::is_same<OAlloc, Alloc>::value && std::is_same<OSizeType, SizeType>::value && !isSmall();
   }
   template <class OSizeType>
   bool canSwapDynStorage(StaticVectorBase<T, OSizeType> &) const noexcept {
@@ -726,7 +730,7 @@ class SmallVectorBase : private Alloc {
   }
   template <class OSizeType, class OAlloc>
   bool canSwapDynStorage(SmallVectorBase<T, OAlloc, OSizeType> &o) const noexcept {
-    return std::is_same<OAlloc, Alloc>::value && !isSmall() && !o.isSmall();
+    return std::is_same<OAlloc, Alloc>::value && std::is_same<OSizeType, SizeType>::value && !isSmall() && !o.isSmall();
   }
 
   template <class VectorType>
@@ -777,6 +781,11 @@ class SmallVectorBase : private Alloc {
   /// Access to 'real' capacity member reference. No need to check for small state here, this method is only called
   /// for large state vectors.
   SizeType &mcapacity() noexcept { return _capa; }
+  /// Set both size and capacity of a vector in large state (after its dynamic storage has been exchanged).
+  void setDynSizeAndCapacity(SizeType s, SizeType c) noexcept {
+    _size = s;
+    _capa = c;
+  }
 
   iterator dynStorage() const noexcept { return _storage.dyn(); }
 
@@ -799,7 +808,7 @@ class SmallVectorBase : private Alloc {
 template <class T, class Alloc, class SizeType>
 template <class OSizeType, class OAlloc>
 bool StdVectorBase<T, Alloc, SizeType>::canSwapDynStorage(SmallVectorBase<T, OAlloc, OSizeType> &o) const noexcept {
-  return std::is_same<OAlloc, Alloc>::value && !o.isSmall();
+  return std::is_same<OAlloc, Alloc>::value && std::is_same<OSizeType, SizeType>::value && !o.isSmall();
 }
 
 template <class T, class SizeType, class GrowingPolicy>
@@ -844,9 +853,16 @@ class StaticVector : public StaticVectorBase<T, SizeType> {
   friend class DynamicVector;
 
   template <class VectorType>
-  void swap2_impl(VectorType &o) noexcept(is_swap_noexcept<T>::value) {
+  void swap2_impl(VectorType &o) {
+    // Exchange the sizes in local variables first: it checks (and throws before any modification of the vectors) that
+    // each size fits in the size_type of the other vector. Sizes are then set with 'setSize', which maintains the
+    // size / capacity encoding of SmallVectors in small state.
+    SizeType newSize = this->size();
+    typename VectorType::size_type oNewSize = o.size();
+    swap_sizetype(newSize, oNewSize);
     swap_deep(this->begin(), this->size(), o.begin(), o.size());
-    swap_sizetype(this->msize(), o.msize());
+    this->setSize(newSize);
+    o.setSize(oNewSize);
   }
 
   // Adjust capacity methods take uintmax_t as parameter to check for size_type overflow
@@ -968,21 +984,36 @@ class DynamicVector : public DynamicVectorBaseTypeDispatcher<T, Alloc, SizeType,
   friend class DynamicVector;
 
   template <class OSizeType, class OGrowingPolicy>
-  void swap2_impl(StaticVector<T, OSizeType, OGrowingPolicy> &o) noexcept(is_swap_noexcept<T>::value) {
+  void swap2_impl(StaticVector<T, OSizeType, OGrowingPolicy> &o) {
     // Here 'o' cannot grow so we cannot swap any dynamic storage. Deeply swap all elements
+    // (sizes: see StaticVector::swap2_impl)
+    SizeType newSize = this->size();
+    OSizeType oNewSize = o.size();
+    swap_sizetype(newSize, oNewSize);
     swap_deep(this->begin(), this->size(), o.begin(), o.size());
-    swap_sizetype(this->msize(), o.msize());
+    this->setSize(newSize);
+    o.setSize(oNewSize);
   }
 
   template <class OAlloc, class OSizeType, bool OWithInlineElems>
-  void swap2_impl(DynamicVector<T, OAlloc, OSizeType, OWithInlineElems> &o) noexcept(is_swap_noexcept<T>::value) {
+  void swap2_impl(DynamicVector<T, OAlloc, OSizeType, OWithInlineElems> &o) {
+    // sizes: see StaticVector::swap2_impl
+    SizeType newSize = this->size();
+    OSizeType oNewSize = o.size();
+    swap_sizetype(newSize, oNewSize);
     if (this->canSwapDynStorage(o)) {
+      // Both vectors are in large state with the same size_type: exchange buffers, and set size and capacity together
+      SizeType newCapa = this->capacity();
+      OSizeType oNewCapa = o.capacity();
+      swap_sizetype(newCapa, oNewCapa);
       this->swapDynStorage(o);
-      swap_sizetype(this->mcapacity(), o.mcapacity());
+      this->setDynSizeAndCapacity(newSize, newCapa);
+      o.setDynSizeAndCapacity(oNewSize, oNewCapa);
     } else {
       swap_deep(this->begin(), this->size(), o.begin(), o.size());
+      this->setSize(newSize);
+      o.setSize(oNewSize);
     }
-    swap_sizetype(this->msize(), o.msize());
   }
 
   // Adjust capacity methods take uintmax_t as parameter to check for size_type overflow
